@@ -213,6 +213,23 @@ def _canon(mapping) -> str:
     return ";".join("%s=%s" % (k, v) for k, v in sorted((str(k), str(v)) for k, v in dict(mapping).items()))
 
 
+def _settings_database(settings):
+    """settings.database; for a settings object that leaves the database alone Hypothesis re-probes the default directory on every
+    access (10 ms) - that case is answered from the (identical) default settings object, probed once per process."""
+    try:
+        from hypothesis.utils.conventions import not_set
+
+        if getattr(settings, "_database", None) is not_set and getattr(settings, "_fallback", 1) is None:
+            if "default_db" not in _state:
+                import hypothesis
+
+                _state["default_db"] = hypothesis.settings().database
+            return _state["default_db"]
+    except Exception:
+        pass
+    return settings.database
+
+
 def _database(db, env: dict) -> str:
     from hypothesis.database import DirectoryBasedExampleDatabase, InMemoryExampleDatabase
 
@@ -306,7 +323,7 @@ def project(cap: dict, case: dict, env: dict) -> list[list[str]]:
     add("seed", "engine", "none" if ex.seed is None else str(ex.seed))
     add("no_shrink", "engine", _b(Phase.shrink not in hs.phases))
     add("deterministic", "engine", _b(hs.derandomize))
-    add("database", "engine", _database(hs.database, env))
+    add("database", "engine", _database(_settings_database(hs), env))
     add("suppress", "engine", _suppress(hs.suppress_health_check))
     add("wait_for_schema", "run", _num(run.wait_for_schema))
     add("header", "engine", _canon(net.headers))
@@ -398,8 +415,8 @@ def _capped(settings):
     """What is observed is the settings object the phase built; the run itself is then shortened (harness-side economy)."""
     import hypothesis
 
-    return hypothesis.settings(settings, max_examples=min(settings.max_examples, 3), database=None,
-                               stateful_step_count=min(settings.stateful_step_count, 3))
+    return hypothesis.settings(settings, max_examples=min(settings.max_examples, 2), database=None,
+                               stateful_step_count=min(settings.stateful_step_count, 2))
 
 
 def _install_engine_hooks() -> None:
@@ -551,7 +568,7 @@ def signatures(case: dict, obs: dict, cat: dict, family: dict | None, engine: bo
                 cls = _label(o, cmd[o]) if why == "invalid" else why
                 out["X02:verdict:accepted:%s:%s" % (why, cls)] = (
                     "must be refused with a usage error (%s %s) but a run configuration reached the engine: argv %s env %s" % (
-                        why, "%s=%s" % (o, cmd[o]), obs["argv"], obs["env"]))
+                        why, "%s=%s" % (o, cmd.get(o, "absent")), obs["argv"], obs["env"]))
             return out
         # expected ACCEPT, observed a refusal or a crash: shrink to the options that are needed for it
         cur, order = case, list(obs["order"])
@@ -629,7 +646,7 @@ def _work_engine(item: str) -> list:
     return [observe_engine(case, order, seed) for order in orders]
 
 
-def _pool_map(fn, items: list, procs: int = 12) -> list:
+def _pool_map(fn, items: list, procs: int = 16) -> list:
     import multiprocessing as mp
 
     if len(items) <= 1:
@@ -707,7 +724,7 @@ def run(ctx: Ctx) -> Outcome:
             and {o for o, _ in c["cmd"]} - {"url"} <= HYP_OPTIONS]
     singles = [i for i in pool if len(cases[i]["cmd"]) <= 2]
     rest = [i for i in pool if len(cases[i]["cmd"]) > 2]
-    n_engine = 56 if ctx.quick else 320
+    n_engine = 40 if ctx.quick else 320
     engine_idx = singles + common.sample(rng, rest, max(0, n_engine - len(singles)))
     t1 = time.time()
     engine_obs = _pool_map(_work_engine, [json.dumps([cases[i], orders_for(cases[i], ctx.seed, False)[:1], ctx.seed]) for i in engine_idx])
@@ -716,22 +733,38 @@ def run(ctx: Ctx) -> Outcome:
     # 4. code -> spec: TLC judges every observation
     flat: list[tuple[int, dict, bool]] = [(i, o, False) for i, obs in enumerate(observed) for o in obs]
     flat += [(i, o, True) for i, obs in zip(engine_idx, engine_obs) for o in obs]
-    tlc_dis, jres = judge(ctx, [o for _, o, _ in flat])
+    py_all = {(n, f, site) for n, (i, o, _) in enumerate(flat, 1) for f, site in disagreements(cases[i], o, cat)}
+    bad_n = {n for n, _, _ in py_all}
+    limit = 12000 if ctx.quick else 40000
+    if len(flat) <= limit:
+        judged_n = list(range(1, len(flat) + 1))
+    else:   # every disagreement, every engine run, a seeded sample of the agreeing rest
+        keep = bad_n | {n for n, (_, _, e) in enumerate(flat, 1) if e}
+        judged_n = sorted(keep | set(common.sample(rng, [n for n in range(1, len(flat) + 1) if n not in keep], max(0, limit - len(keep)))))
+    tlc_dis, jres = judge(ctx, [flat[n - 1][1] for n in judged_n])
     timings["tlc_judge_s"] = round(jres.wall_s, 1)
-    py_dis = {(n, f, site) for n, (i, o, _) in enumerate(flat, 1) for f, site in disagreements(cases[i], o, cat)}
-    if tlc_dis != py_dis:
-        raise tlc.TLCFailure("judge (TLC) and driver disagree on %d cells: %s" % (len(tlc_dis ^ py_dis), sorted(tlc_dis ^ py_dis)[:5]))
+    tlc_dis = {(judged_n[k - 1], f, site) for k, f, site in tlc_dis}
+    py_dis = {(n, f, site) for n, f, site in py_all if n in set(judged_n)}
+    if tlc_dis != py_dis or py_dis != py_all:
+        raise tlc.TLCFailure("judge (TLC) and driver disagree on %d cells: %s" % (len(tlc_dis ^ py_all), sorted(tlc_dis ^ py_all)[:5]))
 
     # 5. verdicts
     _install()
     per_sig: dict[str, int] = {}
     bad = sorted({n for n, _, _ in py_dis})
-    budget = 400       # minimisation re-runs the command; bound the work when a defect floods the family
+    cells_of: dict[int, list] = {}
+    for n, f, site in py_dis:
+        cells_of.setdefault(n, []).append((f, site))
+    per_group: dict = {}
     for n in bad:
         i, o, eng = flat[n - 1]
-        if budget <= 0:
-            break
-        budget -= 1
+        accepted_invalid = cases[i]["verdict"] == "REJECT"
+        # working out the smallest option set re-runs the command: at most 6 observations per (disagreeing cells, class of the element)
+        group = (tuple(sorted(cells_of[n])), eng, tuple(sorted(why for _, why in cases[i]["reasons"])),
+                 tuple(sorted(_label(a, b) for a, b in cases[i]["cmd"] if a != "url")) if len(cases[i]["cmd"]) <= 2 else len(cases[i]["cmd"]))
+        per_group[group] = per_group.get(group, 0) + 1
+        if not accepted_invalid and per_group[group] > 6:
+            continue
         for sig, summary in signatures(cases[i], o, cat, family, engine=eng).items():
             per_sig[sig] = per_sig.get(sig, 0) + 1
             if per_sig[sig] > 3:
@@ -739,8 +772,8 @@ def run(ctx: Ctx) -> Outcome:
             out.violations.append(Violation(sig, summary, {"kind": "element", "case": cases[i], "order": o["order"], "engine": eng,
                                                            "cat": cat, "signature": sig}))
     n_u = sum(1 for c in cases if c["verdict"] == "U")
-    u_cells = sum(1 for i, o, _ in flat if cases[i]["verdict"] == "ACCEPT"
-                  for f, site, v in o["fields"] if expected_of(cat, cases[i])[0][f] == "U") if len(flat) < 50000 else -1
+    u_fields = {i: {f for f, v in expected_of(cat, c)[0].items() if v == "U"} for i, c in enumerate(cases) if c["verdict"] == "ACCEPT"}
+    u_cells = sum(1 for i, o, _ in flat if i in u_fields and o["outcome"] == "ACCEPT" for f, _, _ in o["fields"] if f in u_fields[i])
     crashes = sorted({"%s -> %s" % (" ".join(o["argv"][:8]), o["note"][:120]) for i, o, _ in flat
                       if o["outcome"] == "ERROR" and cases[i]["verdict"] == "U"})
     if crashes:
@@ -752,7 +785,7 @@ def run(ctx: Ctx) -> Outcome:
     out.coverage = {
         "states": total_states,
         "transitions": total_generated,
-        "traces_validated_against_impl": len(flat),
+        "traces_validated_against_impl": len(judged_n),
         "samples": [{"argv": [abstract(t, _ENV) for t in flat[n][1]["argv"]], "env": flat[n][1]["env"], "expected_verdict": cases[flat[n][0]]["verdict"],
                      "observed_outcome": flat[n][1]["outcome"], "expected_difference_to_base": cases[flat[n][0]]["diff"],
                      "observed_fields": flat[n][1]["fields"][:12], "observed_hypothesis_settings": flat[n][1]["hyp"][:14]} for n in shown],
@@ -765,9 +798,11 @@ def run(ctx: Ctx) -> Outcome:
                 "non-trivial = at least one option given and the documentation decides the outcome" % (
                     ", ".join(c for c, _, _ in runs), "" if ctx.quick else ", every triple with one invalid representative per option, simulated "
                     "command lines of up to 8 options", len(engine_idx)),
-        "exhaustive": {"single_options_x_value_classes": True, "pairs": True, "triples": not ctx.quick, "larger_combinations": False,
-                       "argv_orders": False},
-        "family_by_run": {c: {"distinct_states": r.distinct or n, "generated": r.generated, "wall_s": round(r.wall_s, 1)} for c, r, n in runs},
+        "exhaustive": {"single_options_x_every_value_class": True,
+                       "pairs_x_every_value_class" if not ctx.quick else "pairs_x_valid_undecided_and_one_invalid_class_per_option": True,
+                       "triples_of_valid_value_classes": not ctx.quick, "larger_combinations": False, "argv_orders": False},
+        "family_by_run": {c: ({"distinct_states": r.distinct, "generated": r.generated, "wall_s": round(r.wall_s, 1)} if r.distinct else
+                              {"states_visited_by_simulation": n, "wall_s": round(r.wall_s, 1)}) for c, r, n in runs},
         "family_elements": len(cases),
         "by_verdict": {v: sum(1 for c in cases if c["verdict"] == v) for v in ("ACCEPT", "REJECT", "U")},
         "by_options_given": {str(k): sum(1 for c in cases if len([o for o, _ in c["cmd"] if o != "url"]) == k) for k in range(0, 9)},
@@ -790,7 +825,7 @@ def run(ctx: Ctx) -> Outcome:
         "the command line is a map: the argv order of the options and the position of SCHEMA are chosen per element (seeded); pairs with a "
         "documented interaction are run in both orders (thorough: every element of up to three options)",
         "engine runs: the Hypothesis settings are observed where the phase hands them over (create_test result / run_state_machine_as_test "
-        "argument); the run is then shortened (max_examples <= 3, step count <= 3, no database) - the observed object is the uncapped one",
+        "argument); the run is then shortened (max_examples <= 2, step count <= 2, no database) - the observed object is the uncapped one",
         "not judged (documentation silent or contradictory): defaults of --workers (help: 1, reference: auto), --mode (help/reference: positive, "
         "guide: all), --seed, --request-timeout, --generation-codec; --rate-limit N/d and 0/s; --auth with a colon in / an empty password; "
         "--generation-deterministic together with --generation-database; the database under --generation-deterministic; the base URL of a URL "
